@@ -38,22 +38,27 @@ def reserved (key : Str) : Bool :=
 
 /-! ## `write_key` -/
 
+/-- the exceptions of `write_key` -/
+inductive WErr where
+  | reserved | shortChar | hasEq | hasLower | keyTooLong | valueTooLong
+  deriving DecidableEq, Repr
+
 inductive WOut where
   | appended      -- returned true: new entry appended
   | updated       -- returned false: value of an existing entry replaced in place
-  | reserved | shortChar | hasEq | hasLower | keyTooLong | valueTooLong   -- threw, store untouched
+  | threw (e : WErr)   -- exception, store untouched
   deriving DecidableEq, Repr
 
 def WOut.accepted : WOut → Bool
   | .appended | .updated => true
-  | _ => false
+  | .threw _ => false
 
 /-- the test applied to every character of a short key:
     `!(isupper(c) || isdigit(c)) || c=='-' || c=='_'` (so `-` and `_` are refused, whatever the message says) -/
 def badShortChar (c : Char) : Bool := !(c.isUpper || c.isDigit) || c == '-' || c == '_'
 
 /-- the loop over a long key: first offending character decides which exception is thrown -/
-def longKeyScan : Str → Option WOut
+def longKeyScan : Str → Option WErr
   | [] => none
   | c :: cs => if c == '=' then some .hasEq else if c.isLower then some .hasLower else longKeyScan cs
 
@@ -66,10 +71,10 @@ def longMaxData (keylen : Nat) : Nat :=
 def countQuotes (v : Str) : Nat := v.count '\''
 
 /-- key syntax and length validation of `write_key`; `none` = accepted -/
-def validate (key val : Str) : Option WOut :=
+def validate (key val : Str) : Option WErr :=
   if reserved key then some .reserved else
   let keylen := key.length + 1
-  let r : Sum WOut Nat :=
+  let r : Sum WErr Nat :=
     if keylen ≤ C16.shortKeylenMax then
       if key.any badShortChar then .inl .shortChar else .inr C16.shortMaxData
     else
@@ -94,7 +99,7 @@ def setFirst : Store → Str → Str → Store
 /-- `write_key(key, value)` where `val` is what `operator<<` produced for the value -/
 def writeKey (st : Store) (key val : Str) : WOut × Store :=
   match validate key val with
-  | some e => (e, st)
+  | some e => (.threw e, st)
   | none => if hasKey st key then (.updated, setFirst st key val) else (.appended, st ++ [(key, val)])
 
 /-! ## `get_aux_value`, `remove_key`, `read_key` -/
@@ -138,18 +143,22 @@ def digitsVal (ds : List Char) : Nat := ds.foldl (fun a c => a * 10 + digitVal c
     Leading white space is skipped; if nothing is left the sentry fails and the result is not touched.
     Otherwise optional sign and the longest run of digits; no digit: fail and 0; out of range: fail and
     the clamped value. -/
-def parseInt (s : Str) : Bool × Option Int :=
-  let s := s.dropWhile isCSpace
-  if s.isEmpty then (false, none) else
-  let (neg, s) : Bool × Str := match s with
-    | '-' :: r => (true, r)
-    | '+' :: r => (false, r)
-    | _ => (false, s)
+def splitSign : Str → Bool × Str
+  | '-' :: r => (true, r)
+  | '+' :: r => (false, r)
+  | s => (false, s)
+
+def parseBody (neg : Bool) (s : Str) : Bool × Option Int :=
   let ds := s.takeWhile Char.isDigit
   if ds.isEmpty then (false, some 0) else
   let m : Int := digitsVal ds
   let v := if neg then -m else m
   if v > intMax then (false, some intMax) else if v < intMin then (false, some intMin) else (true, some v)
+
+def parseInt (s : Str) : Bool × Option Int :=
+  let s := s.dropWhile isCSpace
+  if s.isEmpty then (false, none) else
+  parseBody (splitSign s).1 (splitSign s).2
 
 inductive ROut (α : Type) where
   | absent                     -- key not present: returns false, result untouched
